@@ -179,6 +179,17 @@ func convertTrace(evs []verif.Event, w *hlib.NDJSON, report *Report) int {
 		case "HStatsT":
 			t := curTop[S(e, "t")]
 			put(map[string]interface{}{"ev": e.Ev, "t": t, "count": I(e, "count"), "bytes": I(e, "bytes"), "depth": I(e, "depth"), "paused": B(e, "paused")})
+		case "HStatsTopics":
+			var ts []string
+			for _, n := range strs(e, "topics") {
+				if inst, ok := curTop[n]; ok {
+					ts = append(ts, inst)
+				}
+			}
+			if ts == nil {
+				ts = []string{}
+			}
+			put(map[string]interface{}{"ev": e.Ev, "topics": ts})
 		case "HStatsC":
 			c := curInst[S(e, "c")]
 			put(map[string]interface{}{"ev": e.Ev, "c": c, "depth": I(e, "depth"), "inflight": I(e, "inflight"), "deferred": I(e, "deferred"),
